@@ -6,7 +6,7 @@
    every variant (the tree structure does not depend on the cut search).
    Rib = the same function applied to the rotated points recorded by the hook. *)
 From Coupe Require Import Lib.Prelude Lib.SFloat Model.Rcb Gen.RcbGen
-  Proofs.SFOrder Proofs.RcbProofs Proofs.RcbInst Proofs.RcbTotal.
+  Proofs.SFOrder Proofs.RcbProofs Proofs.RcbInst Proofs.RcbTotal Proofs.F32Rank Proofs.F32Flocq Proofs.RcbTotalInst.
 From Coq Require Import Floats.SpecFloat Permutation.
 Open Scope Z_scope.
 
@@ -89,13 +89,16 @@ Theorem C03_checker_sound : forall D k pts ids,
 Proof. exact check_bisect32_sound. Qed.
 Print Assumptions C03_checker_sound.
 
-(* PARTIAL (feeds C01): termination of the cut search and totality of rcb for
-   the stop rules at HEAD, for every schedule, from a bounded order embedding
-   [rank] of the representable values [good] (closed under the midpoint) into
-   Z.  The embedding exists for binary32 (rank = the sign-magnitude reading
-   of the bit pattern) but its three hypotheses are NOT discharged for
-   SpecFloat here; the runs use fuel 2000 and an OutOfFuel would be a mismatch. *)
-Theorem C03_search_terminates_partial :
+(* Feeds C01: termination of the cut search and totality of rcb for the stop
+   rules at HEAD, for every schedule.  Generic form: from a bounded order
+   embedding [rank] of the representable values [good] (closed under the
+   midpoint) into Z.  Binary32 instance below: rank = sign-magnitude reading of
+   (exponent, mantissa) (Proofs/F32Rank.v, pure), closure under the midpoint
+   `min/2 + max/2` by Flocq (Proofs/F32Flocq.v: these two theorems use the
+   real-number axioms of the standard library).  The bound (2^33 iterations) is
+   a termination bound, not a tight one: real searches need < 300 iterations,
+   the runs use fuel 2000 and an OutOfFuel would be a mismatch. *)
+Theorem C03_search_terminates_generic :
   forall (C : Type) (ltb leb : C -> C -> bool) (mid dist addc : C -> C -> C) (zero inf : C)
     (within_tol : Z -> Z -> bool) (by_coord probe_max : bool) (good : C -> bool) (rank : C -> Z),
   (forall a b, good a = true -> good b = true -> good (mid a b) = true) ->
@@ -105,9 +108,9 @@ Theorem C03_search_terminates_partial :
   exists sr, search C ltb leb mid dist addc zero inf within_tol false by_coord probe_max fuel sch it xs sum mn mx prev = Ok sr
     /\ match sr with SplitAt i _ _ _ => (i < length xs)%nat | AllLeft _ => True end.
 Proof. exact search_total. Qed.
-Print Assumptions C03_search_terminates_partial.
+Print Assumptions C03_search_terminates_generic.
 
-Theorem C03_rcb_total_partial :
+Theorem C03_rcb_total_generic :
   forall (C : Type) (ltb leb : C -> C -> bool) (mid dist addc : C -> C -> C) (zero inf : C)
     (within_tol : Z -> Z -> bool) (by_coord probe_max : bool) (valid : C -> bool),
   (forall x, valid x = true -> ltb x x = false) ->
@@ -124,7 +127,28 @@ Theorem C03_rcb_total_partial :
   (1 <= fuel)%nat -> Z.of_nat fuel > rhi - rlo ->
   exists p, rcb_core C ltb leb mid dist addc zero inf within_tol false by_coord probe_max fuel sched D k its sum bb p0 = Ok p.
 Proof. exact rcb_core_total. Qed.
-Print Assumptions C03_rcb_total_partial.
+Print Assumptions C03_rcb_total_generic.
+
+Theorem C03_search_terminates : forall by_coord probe_max tol (xs : list (keyed spec_float)) sum fuel sch it mn mx prev,
+  f32_fin mn = true -> f32_fin mx = true -> (1 <= fuel)%nat -> Z.of_nat fuel > rank32 mx - rank32 mn ->
+  exists sr, search spec_float flt fle (f32_mid true) f32_sub f32_add f32_zero f32_inf (tol_test tol)
+               false by_coord probe_max fuel sch it xs sum mn mx prev = Ok sr
+    /\ match sr with SplitAt i _ _ _ => (i < length xs)%nat | AllLeft _ => True end.
+Proof. exact search_terminates32. Qed.
+Print Assumptions C03_search_terminates.
+
+(* no panic, no OutOfFuel, Ok with every element written (C03_rcb_bisect_tree
+   then gives ids < 2^iter_count): matching lengths, D coordinates per point
+   whose binary32 images are numbers, root box with finite bounds (decidable
+   premise box_ok32, evaluated on every case by the run glue) *)
+Theorem C03_rcb_total : forall fuel sched D k tol pts ws p0,
+  (0 < D)%nat -> length ws = length p0 -> length pts = length p0 ->
+  Forall (fun p => length p = D) pts ->
+  coords_ok pts -> box_ok32 D pts ws = true ->
+  Z.of_nat fuel > 2 ^ 33 ->
+  exists p, rcb_impl fuel sched D k tol pts ws p0 = Ok p.
+Proof. exact (fun fuel sched D k tol pts ws p0 => rcb_total32 rcb_variant fuel sched D k tol pts ws p0 eq_refl eq_refl). Qed.
+Print Assumptions C03_rcb_total.
 
 (* the rank hypotheses are satisfiable: integers in [0, 1000] with the integer midpoint *)
 Example C03_rank_hypotheses_satisfiable :
